@@ -58,6 +58,9 @@ class ItemSession(object):
     def skip(self):
         '''Mark the item as processed without download.'''
         _logger.debug(__(_('Skipping ‘{url}’.'), url=self.url_record.url))
+        # Store the collected child URLs before the final status so that
+        # a crash in between cannot lose them.
+        self.finish()
         self.app_session.factory['URLTable'].check_in(self.url_record.url, Status.skipped)
 
         self._processed = True
@@ -81,6 +84,10 @@ class ItemSession(object):
 
         url_result = URLResult()
         url_result.filename = filename
+
+        # Store the collected child URLs before the final status so that
+        # a crash in between cannot lose them.
+        self.finish()
 
         self.app_session.factory['URLTable'].check_in(
             url,
